@@ -175,6 +175,7 @@ KOf(fam) ==
                 "digamma.rec", "gammad1.half", "besseli.bigx"} -> 128
     [] fam \in {"logbesseli.half", "logbesseli.log", "gamma.rec", "gamma.refl", "gamma.dup", "lgamma.rec"} -> 256
     [] fam \in {"gammap.d1", "gammap.lowerp", "gammap.upperq"} -> 1024
+    [] fam \in {"polygamma.highrec"} -> 512
     [] fam \in {"logbesseli.negseries", "logbesseli.rec2", "logbesseli.series", "besseli.series"} -> 256
     [] OTHER -> 64
 
@@ -961,6 +962,33 @@ LogBesRec2S == LET v == Neg(X1)  x == X2
                             AddR(MulR(Abs(MulR(cm, rm)), AddR(One, Mag2(lm, l0))), AddR(MulR(Abs(MulR(cp, rp)), AddR(One, Mag2(lp, l0))), Mag2(cm, cp))), Zero,
                             << <<Rg(RInt(22), RInt(400), 4), Rg(Dy(1, 6), RInt(1), 8)>> >>,
                             <<SubR(Sin(MulR(Pi, X1)), QF(1, 5))>>)
+
+(* ---- polygamma at extreme arguments: asymptotic expansion with the specification's Bernoulli numbers               *)
+(*   psi_n(x) = (-1)^(n+1) [ (n-1)!/x^n + n!/(2 x^(n+1)) + sum_{k>=1} B_2k (2k+n-1)! / ((2k)! x^(2k+n)) ],  remainder <= first omitted term *)
+(* implementation: n + x == x leading term only (in logs when n log x > 709); n > 21 and n^2 > 709 leading terms in logs *)
+PolyAsymJ == 3
+PolyAsymTerm(n, x, k) == DivR(MulR(Q(Bern(2 * k)), FactT(2 * k + n - 1)), MulR(FactT(2 * k), PowR(x, QI(2 * k + n))))
+PolyAsymT(n, x) == MulR(QI(SgnP(n)), AddR(AddR(DivR(FactT(n - 1), PowR(x, QI(n))), DivR(FactT(n), MulR(Two, PowR(x, QI(n + 1))))),
+                                            SumR([k \in 1..PolyAsymJ |-> PolyAsymTerm(n, x, k)])))
+PolyHugeList == << <<2, P2(60)>>, <<3, P2(100)>>, <<2, P2(400)>>, <<4, P2(200)>>, <<6, P2(150)>>, <<30, P2(30)>>, <<30, QI(4096)>>,
+                   <<25, QI(500)>>, <<21, QI(200)>>, <<2, QI(1000000)>>, <<5, QI(4096)>> >>
+PolygammaHuge(k) == LET n == PolyHugeList[k][1]  x == PolyHugeList[k][2] IN
+  EqRec("polygamma.huge", KOf("polygamma.huge"), <<RInt(n), RInt(k)>>, PolyL(n, x), PolyAsymT(n, x), MulR(QI(n + 1), Abs(PolyAsymT(n, x))),      \* conditioning in x: n + 1
+        Abs(PolyAsymTerm(n, x, PolyAsymJ + 1)), IF n > 21 THEN "logs" ELSE "asymptotic")
+(* recurrence at orders beyond the tabulated derivatives of cot (n > 20: coefficient rows generated at run time, powers in logs) *)
+PolyHighNs == <<21, 25, 43>>
+PolyHighXs == <<R(-5, 16), R(-5, 4), R(-11, 4), R(1, 8), RInt(3)>>
+PolygammaHighRec(n, x) == LET c == MulR(QI(0 - SgnP(n)), MulR(FactT(n), PowR(Q(x), QI(0 - n - 1)))) IN
+  EqRec("polygamma.highrec", KOf("polygamma.highrec"), <<RInt(n), x>>, PolyL(n, Q(RAdd(x, ROne))), AddR(PolyL(n, Q(x)), c),
+        Mag3(PolyL(n, Q(RAdd(x, ROne))), PolyL(n, Q(x)), c), Zero, IF RLt(x, RZero) THEN "reflection, generated row" ELSE "positive")
+
+(* ---- zeta reflection zeta(s) = 2^s pi^(s-1) sin(pi s/2) Gamma(1-s) zeta(1-s) at negative half-integers (Gamma from the library) *)
+(* implementation: 1 - s > 21: exp(lgamma(1-s) - (1-s) log(2 pi)) with overflow checks, below: pow * Gamma                         *)
+ZetaReflS == <<R(-5, 2), R(-21, 2), R(-39, 2), R(-41, 2), R(-61, 2), R(-201, 2), R(-301, 2), R(-339, 2)>>
+ZetaRefl(s) == LET sc == RSub(ROne, s)
+                   t  == MulR(MulR(MulR(PowR(Two, Q(s)), PowR(Pi, Q(RNeg(sc)))), Sin(MulR(Pi, Q(RDiv(s, RInt(2)))))), MulR(GamL(Q(sc)), ZetaL(sc))) IN
+  EqRec("zeta.refl", KOf("zeta.refl"), <<s>>, ZetaL(s), t, MulR(Abs(t), AddR(One, MulR(Q(sc), Log(MulR(Two, Pi))))), Zero,
+        IF RLt(RInt(21), sc) THEN "lgamma form" ELSE "gamma form")
 
 (* ======================================================================= *)
 (* PURITY: the value of a special function is a function of its arguments    *)
